@@ -40,6 +40,9 @@ fn edits_of(p: &Printed) -> Vec<(Edit, &'static str)> {
         v.push((Edit::Insert(e, "  "), "trailing spaces"));
         v.push((Edit::Insert(e, "\t"), "trailing tab"));
         v.push((Edit::Insert(e, " [- c -]"), "trailing block comment"));
+        v.push((Edit::Insert(e, " [- c -]  "), "trailing block comment and trailing spaces"));
+        v.push((Edit::Insert(e, " [- c -] [- d -]"), "two trailing block comments"));
+        v.push((Edit::Insert(e, " [- c -] -- d"), "trailing block comment and trailing comment"));
     }
     for &g in &p.gaps {
         v.push((Edit::Insert(g, "[- c -]"), "block comment between words"));
